@@ -1,7 +1,8 @@
-"""C12 -- emu-sv state-vector / density-matrix / dense-operator objects vs their definitions.
+"""C12 -- emu-sv state-vector / density-matrix / dense- and sparse-operator objects vs their definitions.
 
-Engine B (symtorch), BOUNDED, level "other".  Dense part only: SparseOperator needs torch's
-sparse kernels, which the shim does not model -- stated, not claimed.
+Engine B (symtorch), BOUNDED, level "other".  SparseOperator runs on the shim's model of torch's sparse COO / CSR
+tensors (/verif/symtorch/torch/_sparse.py): index lists, duplicates, the is_coalesced flag and the CSR row pointers
+are kept as torch keeps them, so a result that is wrong only because of the stored layout is seen.
 """
 from props import _engineb
 
@@ -13,7 +14,15 @@ BOUNDS = ("_from_state_amplitudes: every basis string for N = 1..4 with one ampl
           "amplitudes with rational norm; algebra (inner/norm/overlap/+/scalar*/from_state_vector/DensityMatrix.overlap/"
           "make/zero): symbolic vectors and matrices for N = 1..3 (thorough: 4); DenseOperator._from_operator_repr: "
           "N = 1..3, every way to give 1-2 operators disjoint target sets, 6 operator-name sets, 1-2 terms, symbolic "
-          "coefficients; DenseOperator @, +, scalar*, apply_to, expect on symbolic 2^N x 2^N matrices")
+          "coefficients; DenseOperator @, +, scalar*, apply_to, expect on symbolic 2^N x 2^N matrices; "
+          "SparseOperator._from_operator_repr: N = 1..3 (a third of the N = 3 combinations in quick; thorough: all of "
+          "them and a seventh of N = 4), every way to give 1-2 operators disjoint target sets (one operator on several "
+          "targets included), 9 operator-name sets over gg/gr/rg/rr including factors with 2-4 entries and two entries "
+          "in one row, 1, 2 and 3 terms, symbolic term coefficients and symbolic QuditOp coefficients, target lists and "
+          "target sets, compared entry-wise with the Kronecker construction and with DenseOperator from the same "
+          "representation, plus apply_to/expect of the built operator on a symbolic vector; SparseOperator +, scalar*, "
+          "@, apply_to, expect, deepcopy: symbolic CSR matrices for N = 1..3 (thorough: 4) from 3 index patterns "
+          "(full, scattered with duplicates in shuffled order, two rows in descending order)")
 
 CONTROLS = [
     dict(name="bitstring index with r=0, g=1", file="emu_sv/state_vector.py",
@@ -30,8 +39,30 @@ CONTROLS = [
          old="return DenseOperator(self.data @ other.data)", new="return DenseOperator(other.data @ self.data)"),
     dict(name="pure-state density matrix transposed", file="emu_sv/density_matrix_state.py",
          old="torch.outer(state.data, state.data.conj())", new="torch.outer(state.data.conj(), state.data)"),
+    # ---- emu_sv/sparse_operator.py
+    dict(name="sparse: first term bypasses sparse_add (unsorted kron result flagged coalesced reaches to_sparse_csr)",
+         file="emu_sv/sparse_operator.py",
+         old="accum_res = sparse_add(accum_res, coeff * reduce(sparse_kron, single_qubit_gates))",
+         new="accum_res = (lambda term: term if accum_res._nnz() == 0 else sparse_add(accum_res, term))"
+             "(coeff * reduce(sparse_kron, single_qubit_gates))"),
+    dict(name="sparse: sparse_kron with the index arithmetic of kron(b, a)", file="emu_sv/sparse_operator.py",
+         old="torch.tensor(sb).reshape(2, 1, 1) * a.indices().reshape(2, -1, 1) + b.indices().reshape(2, 1, -1)",
+         new="torch.tensor(sa).reshape(2, 1, 1) * b.indices().reshape(2, 1, -1) + a.indices().reshape(2, -1, 1)"),
+    dict(name="sparse: term coefficient missing in the accumulation", file="emu_sv/sparse_operator.py",
+         old="accum_res, coeff * reduce(sparse_kron, single_qubit_gates)",
+         new="accum_res, reduce(sparse_kron, single_qubit_gates)"),
+    dict(name="sparse: QuditOp coefficient dropped", file="emu_sv/sparse_operator.py",
+         old="result += tensor * coeff", new="result += tensor"),
+    dict(name="sparse: operator 'rg' defined as |g><r|", file="emu_sv/sparse_operator.py",
+         old='"rg": torch.tensor([[0.0, 0.0], [1.0, 0.0]], dtype=dtype).to_sparse_coo(),',
+         new='"rg": torch.tensor([[0.0, 1.0], [0.0, 0.0]], dtype=dtype).to_sparse_coo(),'),
+    dict(name="sparse: __rmul__ ignores the scalar", file="emu_sv/sparse_operator.py",
+         old="return SparseOperator(scalar * self.data)", new="return SparseOperator(self.data)"),
+    dict(name="sparse: sparse_add keeps only the second operand's values", file="emu_sv/sparse_operator.py",
+         old="torch.cat((self.values(), other.values())),", new="torch.cat((0 * self.values(), other.values())),"),
 ]
-QUICK_CONTROLS = ["bitstring index with r=0, g=1", "operator 'rg' defined as |g><r|"]
+QUICK_CONTROLS = ["bitstring index with r=0, g=1", "operator 'rg' defined as |g><r|",
+                  "sparse: first term bypasses sparse_add (unsorted kron result flagged coalesced reaches to_sparse_csr)"]
 
 SPEC = dict(
     id=ID, bounds=BOUNDS,
@@ -39,27 +70,52 @@ SPEC = dict(
         "BOUNDED symbolic execution of the real modules (Engine B, /verif/symtorch). The unmodified "
         "emu_sv/state_vector.py (StateVector.__init__, zero, make, inner, norm, overlap, __add__, __rmul__, "
         "_from_state_amplitudes, _normalize, module-level inner), emu_sv/density_matrix_state.py (__init__, make, "
-        "overlap, from_state_vector, _from_state_amplitudes) and emu_sv/dense_operator.py (__init__, __matmul__, "
-        "__add__, __rmul__, apply_to, expect, _from_operator_repr) run on tensors with symbolic entries and are "
+        "overlap, from_state_vector, _from_state_amplitudes), emu_sv/dense_operator.py (__init__, __matmul__, "
+        "__add__, __rmul__, apply_to, expect, _from_operator_repr) and emu_sv/sparse_operator.py (sparse_add, "
+        "sparse_kron, SparseOperator.__init__, __add__, __rmul__, __matmul__, apply_to, expect, _from_operator_repr, "
+        "__deepcopy__) run on tensors with symbolic entries and are "
         "compared, as exact polynomial identities, with the dense linear-algebra definitions (Kronecker products in "
         "the ground-rydberg basis, g = 0, r = 1, atom 0 most significant; |a><b| for the operator name 'ab'). "
+        "SparseOperator: the matrix stored in the CSR tensor (read out with to_dense()) is compared entry-wise with the "
+        "independent Kronecker construction AND with DenseOperator built from the same representation (dense/sparse "
+        "agreement); apply_to and expect of the built operator go through the CSR row pointers (csr @ vector); +, "
+        "scalar*, apply_to, expect and deepcopy are compared with the dense definitions on symbolic CSR matrices; "
+        "SparseOperator.__matmul__ raises NotImplementedError by design, which is recorded, not compared. "
+        "Sparse layout, as modelled in /verif/symtorch/torch/_sparse.py (determined natively on torch 2.10 CPU and "
+        "compared op by op with real torch in the shim self-test): a COO tensor keeps its index list as given "
+        "(unsorted, duplicated) and its is_coalesced FLAG; sparse_coo_tensor sets the flag only for nnz < 2 or on "
+        "request and does not validate indices; coalesce() returns self when the flag is set, else sorts "
+        "lexicographically and sums duplicates; indices()/values() refuse unflagged tensors; to_dense() and sparse @ "
+        "dense sum duplicates; scalar * sparse keeps indices and flag; sparse += sparse of truly coalesced operands is "
+        "the sorted union with explicit zeros kept; to_sparse_csr() coalesces an unflagged tensor but TRUSTS the flag "
+        "otherwise and compresses the row indices as stored with torch's sequential kernel, which is modelled "
+        "literally -- for a tensor flagged coalesced whose rows are not sorted this yields the same wrong CSR matrix as "
+        "torch does (entries in the wrong rows), so such a defect shows as a mismatch that the native replay "
+        "reproduces; csr @ dense, csr.to_dense(), csr.to_sparse_coo(), scalar * csr, clone, to follow crow/col/values. "
+        "Situations whose torch result is an implementation detail are UNDECIDED, not guessed (sparse add with an "
+        "unflagged or falsely flagged operand, indices outside the size, CSR conversion of unsorted rows at or above "
+        "the kernel's grain size of 32768 entries): they go to the native panel search. "
         "|z|^2 is read through root variables with r^2 = P. _from_state_amplitudes is run on CONCRETE amplitudes "
         "(its normalisation branches on a tolerance and divides by the norm): the finite family stated in the bounds "
-        "is enumerated. Bounds: " + BOUNDS + ". NOT covered: SparseOperator and dense/sparse agreement (torch sparse "
-        "kernels are outside the shim), sampling, N beyond the bounds (the property quantifies to 8 qubits), repeated "
-        "targets inside one operator term (pulser's Operator._validate_operations rejects them: assumption A4), "
-        "floating-point rounding."),
+        "is enumerated. Bounds: " + BOUNDS + ". NOT covered: sampling, N beyond the bounds (the property quantifies to "
+        "8 qubits), repeated targets inside one operator term (pulser's Operator._validate_operations rejects them: "
+        "assumption A4), operator names other than gg/gr/rg/rr (the code has no others), the {'0','1'} basis (the code "
+        "raises NotImplementedError), COO matrices handed to SparseOperator (the class documents CSR), CUDA sparse "
+        "kernels, floating-point rounding."),
     controls=CONTROLS, quick_controls=QUICK_CONTROLS, exhaustive=False,
-    min_cases=dict(quick=300, thorough=300),
+    min_cases=dict(quick=500, thorough=900),
     assumptions=[
         "A1: float64/complex128 arithmetic is read as exact arithmetic",
         "A3: torch op semantics as implemented in /verif/symtorch/torch (differential self-test in the thorough tier)",
+        "A3-sparse: torch 2.10 CPU sparse COO/CSR layout semantics as modelled in /verif/symtorch/torch/_sparse.py, incl. "
+        "to_sparse_csr() trusting the is_coalesced flag (sequential row-compression kernel below 32768 entries); "
+        "compared with real torch on sorted, unsorted-but-flagged and duplicated index lists in the self-test",
         "A4: pulser rejects repeated targets within an operator term; pulser base classes State/Operator are inert here",
         "sqrt/abs/vector_norm are root variables with r^2 = P (sound for identities; P >= 0)",
         "gpu=False / no CUDA device: objects stay on the CPU",
     ],
     trusted=[
-        "/verif/symtorch/poly.py normal form (incl. root variables)", "/verif/symtorch/torch shim",
+        "/verif/symtorch/poly.py normal form (incl. root variables)", "/verif/symtorch/torch shim (incl. _sparse.py)",
         "/verif/symtorch/harness/symharness/{core,c12}.py (dense definitions, comparison)",
         "NumPy 2.x object-array semantics; CPython 3.11", "pulser is stubbed",
     ],
